@@ -346,12 +346,11 @@ const STREAMS: &[&str] = &[
     "SOUR:LEV 5\nSOUR:LEV?\n", "*IDN?\n", "SOUR:LEV 1;LEV?;:LEV?\nLEV?\n", "NOPE\nLEV?\n", "\n\n*RST\n", "DISP:TEXT 'a;b'\nDISP:TEXT?\n", "MEAS:PAIR?;LIST?\n", "SOUR:LEV 300\nSYST:ERR?\n",
     "0123456789012345\nLEV?\n", "SOUR:LEV 1\r\nLEV?\r\n", "FAIL;LEV?\nSYST:ERR:COUN?\n", "LEV?", "LEV?\nLE", "DATA:BLOC #13a;b\nDATA:BLOC?\n", "  LEV?  \n", "SOUR:LEV 1;\n;\n", "BIG?\nLEV?\n",
     "aaaaaaaaaaaaaaaaaaaaaaaaaaaaaaaaaaaaaaaaaaaaaaaaaaaaaaaaaaaaaaaaaaaaa\nLEV?\n", "LEV?\nLEV?\nLEV?\nLEV?\nLEV?\nLEV?\n",
-    // newline inside a string / block, the real terminator possibly in the same read (the unit with the payload is the
-    // first of its message or follows a root-level unit: the shape of known finding D5 is left out)
-    "DISP:TEXT 'x\ny'\nDISP:TEXT?\n", "LEV?;DATA:BLOC #15ab\ncd\nLEV?\n", "LEV?;DISP:TEXT 'a\nb'\nLEV?\n", "DATA:BLOC #14\n\n\n\n;BLOC?\n*RST\n", "*RST\n*RST\n*RST\n*RST\n",
+    // newline inside a string / block, the real terminator possibly in the same read
+    "DISP:TEXT 'x\ny'\nDISP:TEXT?\n", "DISP:TEXT 'q';TEXT 'x\ny';TEXT?\nLEV?\n", "LEV?;DATA:BLOC #15ab\ncd\nLEV?\n", "LEV?;DISP:TEXT 'a\nb'\nLEV?\n", "DATA:BLOC #14\n\n\n\n;BLOC?\n*RST\n", "*RST\n*RST\n*RST\n*RST\n",
     "SOUR:LEV 5;LEV?\nSOUR:LEV 5;LEV?\n", "MATH:MULT? 10000000,10000000\n", "SOUR:LEV 200;:LEV?\n", "MEAS:DOUB? 1E40\n",
 ];
-/// 28 streams x N in {4,5,8,10,16,21,32,43,64} x every split into reads for streams of at most 12 bytes, and for longer ones:
+/// 29 streams x N in {4,5,8,10,16,21,32,43,64} x every split into reads for streams of at most 12 bytes, and for longer ones:
 /// single bytes, every 2-split, every fixed read size 2..=9, empty reads before / between / after, 40 sampled
 /// compositions; each also with 1 and 3 suspensions per transport call. Compared with the SAME stream delivered by one
 /// read per buffer fill (metamorphic: the reference is the real code itself), so that only the dependence on the
@@ -394,7 +393,7 @@ fn g_chunking(seed: u64, emit: Emit) {
 const PAYLOAD: &[&[u8]] = &[b"a", b";", b",", b":", b"#", b"'", b"\"", b" ", b"\n", b"\t", b"?", b"*"];
 /// strings (both quote characters) and blocks whose payload is every sequence of 1..=3 bytes from {a ; , : # ' " SP NL
 /// TAB ? *} (the own quote excluded for strings), as the only or the second parameter, in the first unit of a message
-/// or after a unit that leaves the path at the root, followed by a further unit and a further message; given to run
+/// or in a relative unit behind a compound unit, followed by a further unit and a further message; given to run
 /// whole, and streamed through process (N = 64) with a read boundary at every position. Reference: ONE run over the
 /// whole stream.
 fn g_containers(_seed: u64, emit: Emit) {
@@ -408,6 +407,8 @@ fn g_containers(_seed: u64, emit: Emit) {
         let mut msgs: Vec<Vec<u8>> = vec![];
         if !p.contains(&b'\'') { msgs.push(cat(&[b"DISP:TEXT '", &p, b"';TEXT?\nLEV?\n"])); msgs.push(cat(&[b"*RST;MEAS:TRI? 1,'", &p, b"',ON;:LEV?\n"])); }
         if !p.contains(&b'"') { msgs.push(cat(&[b"DISP:TEXT \"", &p, b"\";TEXT?\nLEV?\n"])); }
+        // the container in a RELATIVE unit behind a compound unit (the header path must survive a read boundary inside the payload)
+        if !p.contains(&b'\'') { msgs.push(cat(&[b"DISP:TEXT 'a';TEXT '", &p, b"';TEXT?\nLEV?\n"])); msgs.push(cat(&[b"SOUR:LEV 1;RANG 2;:DATA:BLOC #11z;BLOC #", l.len().to_string().as_bytes(), l.as_bytes(), &p, b";BLOC?\n"])); }
         msgs.push(cat(&[b"DATA:BLOC #", l.len().to_string().as_bytes(), l.as_bytes(), &p, b";BLOC?\nLEV?\n"]));
         // the same messages followed by a message that carries binary (non UTF-8) data in a block: a container is
         // closed by its own syntax, nothing behind it takes part in it
@@ -462,7 +463,7 @@ fn g_queue(_seed: u64, emit0: Emit) {
 }
 
 // ---------------------------------------------------------------- C10
-/// 28 streams x N in {8,32} x four chunkings (one with empty reads), with a transport error injected at every index of the read / write /
+/// 29 streams x N in {8,32} x four chunkings (one with empty reads), with a transport error injected at every index of the read / write /
 /// flush call sequence (and none): the ordering write -> flush -> read, no write without a response, the injected
 /// error returned unchanged with no further transport call
 fn g_transport(_seed: u64, emit: Emit) {
@@ -588,13 +589,13 @@ pub const FAMILIES: &[Family] = &[
     Family { name: "faulty", props: &["C06"], kinds: &["handler", "error", "panic", "hang"], gen: g_faulty,
         bound: "47 kinds of faulty unit x 5 positions in a message x 7 surrounding good messages; run on one buffer and process (N = 64) with reads of 1, 5 and all bytes" },
     Family { name: "chunking", props: &["C07"], kinds: &["handler", "error", "response", "transport", "args", "panic", "hang"], gen: g_chunking,
-        bound: "28 streams x N in {4,5,8,10,16,21,32,43,64} x all compositions (length <= 12) or single bytes / all 2-splits / fixed sizes 2..=9 / empty reads / 40 sampled compositions; 0, 1, 3 suspensions per transport call; reference = same stream in maximal reads (real code); and, for streams of fitting messages, reference = the real run one message at a time" },
+        bound: "29 streams x N in {4,5,8,10,16,21,32,43,64} x all compositions (length <= 12) or single bytes / all 2-splits / fixed sizes 2..=9 / empty reads / 40 sampled compositions; 0, 1, 3 suspensions per transport call; reference = same stream in maximal reads (real code); and, for streams of fitting messages, reference = the real run one message at a time" },
     Family { name: "containers", props: &["C08"], kinds: &["handler", "args", "error", "rest", "panic", "hang"], gen: g_containers,
-        bound: "payloads of 1..=3 bytes from 12 special bytes in strings of both quote kinds and blocks, 4 message shapes; run whole and process (N = 64) with a read boundary at every position; reference = one run over the whole stream" },
+        bound: "payloads of 1..=3 bytes from 12 special bytes in strings of both quote kinds and blocks, 6 message shapes (incl. a relative unit behind a compound unit); run whole and process (N = 64) with a read boundary at every position; reference = one run over the whole stream" },
     Family { name: "queue", props: &["C09"], kinds: &["queue", "error", "response", "handler", "panic", "hang"], gen: g_queue,
         bound: "queue of capacity 3: every sequence of 1..=4 operations from a pool of 12 (22 620); every sequence of 1..=9 operations from {undefined header, handler error, ERRor?, COUNt?} followed by a drain (349 524); every error number -420..=60 raised and read back; each on the logging device and on the device that owns StaticErrorQueue directly" },
     Family { name: "transport", props: &["C10"], kinds: &["transport", "panic", "hang"], gen: g_transport,
-        bound: "28 streams x N in {8,32} x 4 chunkings (one with empty reads) x a transport error at every call index (and none)" },
+        bound: "29 streams x N in {8,32} x 4 chunkings (one with empty reads) x a transport error at every call index (and none)" },
     Family { name: "lexical", props: &["C11"], kinds: &["handler", "args", "error", "response", "rest", "panic", "hang"], gen: g_lexical,
         bound: "19 templates with 3..=11 white-space slots: every subset of slots x 5 white-space strings (bytes 0-9, 11-32); lower case, long forms, CR LF on every fifth; reference = the un-spaced message (real code); every spelling of every declaration in 4 letter cases against its long upper-case spelling" },
     Family { name: "finality", props: &["C12"], kinds: &["rest", "error", "handler", "panic", "hang"], gen: g_finality,
